@@ -181,6 +181,29 @@ def _run_random_parts(prop, parts, stats, known, known_hits, violations, shard, 
     for pi, (name, n_cases, strategy, runner) in enumerate(parts):
         if violations:
             break
+        if isinstance(strategy, list):
+            # an enumerated part: every listed case is run once (this shard's share), no generator library involved
+            before = stats.evaluations
+            tp = time.time()
+            for case in strategy[shard::shards]:
+                try:
+                    try:
+                        nt, cl = runner(case)
+                    except BaseException as e:  # noqa
+                        if type(e).__name__ == "PanicException":
+                            raise Violation("%s panic inside the compiled extension" % prop, repr(e)[:500])
+                        raise
+                    stats.record(case, nt, cl)
+                except Violation as v:
+                    k = is_known(v.sig)
+                    if k:
+                        known_hits[k[0]] = known_hits.get(k[0], 0) + 1
+                        continue
+                    path = write_replay(prop, name, case, v.sig, v.msg)
+                    violations.append((path, v.sig, v.msg))
+                    break
+            stats.parts.append({"part": name, "kind": "enumerated (every listed case once)", "cases": stats.evaluations - before, "wall_s": time.time() - tp})
+            continue
         n_cases = max(1, int(n_cases * SCALE))
         # this shard's share
         n_cases = n_cases // shards + (1 if shard < n_cases % shards else 0)
